@@ -274,7 +274,8 @@ func c07Exec(m *cors.Middleware, op c07Op, sched c07Sched) string {
 	case "req":
 		w := &c07Writer{rw: rw{h: http.Header{}}, sched: sched}
 		h := &c07Handler{sched: sched}
-		m.Wrap(h).ServeHTTP(w, c07ReqKinds[op.Arg].httpReq())
+		w.rw.inner = h
+		wrappedOnce(m).ServeHTTP(w, c07ReqKinds[op.Arg].httpReq())
 		return c07Digest(w.obs(h.calls))
 	case "reconf":
 		var err error
